@@ -252,6 +252,25 @@ def second_solver_audit(items, log):
     return res
 
 
+def crosshair_crosscheck(log):
+    """engine B (CrossHair) explores the same reduced scenario as engine A: verdicts must agree, and both must
+    refute a deliberately wrong twin claim"""
+    env = dict(os.environ)
+    env["PYTHONPATH"] = os.pathsep.join([HERE, REPO])
+    try:
+        r = subprocess.run([sys.executable, "-m", "xcheck.ch_engine", "300"], env=env, cwd=HERE,
+                           capture_output=True, text=True, timeout=1500)
+        line = [l for l in r.stdout.splitlines() if l.startswith("{")]
+        res = json.loads(line[-1])
+    except Exception as e:
+        res = {"error": repr(e), "agree": False}
+    res["failed"] = not res.get("agree")
+    log("  CrossHair cross-check of symx: crosshair %s (%s executions), symx %s paths; twin refuted by both: %s"
+        % (res.get("crosshair", {}).get("states"), res.get("crosshair", {}).get("executions"),
+           res.get("symx", {}).get("paths"), res.get("twin_refuted_by_both")))
+    return res
+
+
 def vloop_conformance(seed, n, log):
     env = dict(os.environ)
     env["PYTHONPATH"] = os.pathsep.join([HERE, REPO])
@@ -454,6 +473,8 @@ def main(argv=None):
         trusted["second_solver_audit"] = second_solver_audit(items[:200], log)
         if getattr(mod, "USES_VLOOP", False) or pid in SCENARIO_PROPS:
             trusted["vloop_conformance"] = vloop_conformance(seed, 40, log)
+        if pid in ("C01", "C12"):
+            trusted["crosshair_crosscheck_of_symx"] = crosshair_crosscheck(log)
     elif tier == "quick" and pid == "C01" and not args.only:
         trusted["vloop_conformance"] = vloop_conformance(seed, 16, log)
     for k, v in trusted.items():
